@@ -131,4 +131,120 @@ example :
 
 end interpreted
 
+
+/-! ### interpreted tie A, second part: Get / ContainsKey / Contains / clear / ContainsValue / Sort / ToBytes / ToObject -/
+
+section interpreted2
+open HMap.IR
+variable {K V : Type} [DecidableEq K] [DecidableEq V]
+
+/-- IntIntMap.Get -/
+theorem IntIntMap_get_interp (d : Desc K V) (hash : K → Nat) (thr : Nat → Nat) (pm : PMap K V) (k : K) (v : V) :
+    runP d hash thr Gen.C12IR.IntIntMap_get pm k v = (pm, some (if (pm.tab.get hash k).isSome then Ret.cur else Ret.absent)) := by
+  unfold runP
+  rw [show Gen.C12IR.IntIntMap_get = canonLookup none .cur .absent from by decide, canonLookup_correct]; rfl
+
+/-- IntIntMap.ContainsValue -/
+theorem IntIntMap_cv_interp (pd : PDesc K V) (hash : K → Nat) (thr : Nat → Nat) (pm : PMap K V) (v : V) :
+    interpCV pd.toDesc Gen.C12IR.IntIntMap_cv (ofP pm) v = (PMap.step hash thr pd pm (.containsValue v)).2.isTrue := by
+  rw [show Gen.C12IR.IntIntMap_cv = canonCVa from by decide]; exact (interpCV_plain_correct hash thr pd pm v).1
+
+/-- IntKeyMap.Get -/
+theorem IntKeyMap_get_interp (d : Desc K V) (hash : K → Nat) (thr : Nat → Nat) (pm : PMap K V) (k : K) (v : V) :
+    runP d hash thr Gen.C12IR.IntKeyMap_get pm k v = (pm, some (if (pm.tab.get hash k).isSome then Ret.cur else Ret.absent)) := by
+  unfold runP
+  rw [show Gen.C12IR.IntKeyMap_get = canonLookup none .cur .absent from by decide, canonLookup_correct]; rfl
+
+/-- IntKeyMap.ContainsValue -/
+theorem IntKeyMap_cv_interp (pd : PDesc K V) (hash : K → Nat) (thr : Nat → Nat) (pm : PMap K V) (v : V) :
+    interpCV pd.toDesc Gen.C12IR.IntKeyMap_cv (ofP pm) v = (PMap.step hash thr pd pm (.containsValue v)).2.isTrue := by
+  rw [show Gen.C12IR.IntKeyMap_cv = canonCVa from by decide]; exact (interpCV_plain_correct hash thr pd pm v).1
+
+/-- IntIntMap.ContainsKey (behind the empty-key guard where the source has one; the guard tests the *blind* predicate) -/
+theorem IntIntMap_contains_interp (d : Desc K V) (hash : K → Nat) (thr : Nat → Nat) (pm : PMap K V) (k : K) (v : V) :
+    (guardHead Gen.C12IR.IntIntMap_contains = none ∨ guardHead Gen.C12IR.IntIntMap_contains = some Ret.boolF) ∧
+    runP { d with refuse := d.blind } hash thr Gen.C12IR.IntIntMap_contains pm k v =
+      (pm, some (match guardHead Gen.C12IR.IntIntMap_contains with
+                 | some r => if d.blind k then r else if (pm.tab.get hash k).isSome then Ret.boolT else Ret.boolF
+                 | none => if (pm.tab.get hash k).isSome then Ret.boolT else Ret.boolF)) := by
+  refine ⟨by decide, ?_⟩
+  unfold runP
+  rw [show Gen.C12IR.IntIntMap_contains = canonLookup (guardHead Gen.C12IR.IntIntMap_contains) .boolT .boolF from by decide, canonLookup_correct]; rfl
+
+/-- IntIntMap.clear (IntIntMap returns at once when empty) -/
+theorem IntIntMap_clear_interp (d : Desc K V) (hash : K → Nat) (thr : Nat → Nat) (pm : PMap K V) (k : K) (v : V) :
+    ∃ early, toP (run d hash thr .last k v Gen.C12IR.IntIntMap_clear (ofP pm)).1 = (if early = true ∧ pm.count = 0 then pm else pm.clear) := by
+  first
+  | exact ⟨false, by rw [show Gen.C12IR.IntIntMap_clear = canonClearP false from by decide]; exact canonClearP_correct d hash thr false pm k v⟩
+  | exact ⟨true, by rw [show Gen.C12IR.IntIntMap_clear = canonClearP true from by decide]; exact canonClearP_correct d hash thr true pm k v⟩
+
+/-- IntKeyMap.ContainsKey (behind the empty-key guard where the source has one; the guard tests the *blind* predicate) -/
+theorem IntKeyMap_contains_interp (d : Desc K V) (hash : K → Nat) (thr : Nat → Nat) (pm : PMap K V) (k : K) (v : V) :
+    (guardHead Gen.C12IR.IntKeyMap_contains = none ∨ guardHead Gen.C12IR.IntKeyMap_contains = some Ret.boolF) ∧
+    runP { d with refuse := d.blind } hash thr Gen.C12IR.IntKeyMap_contains pm k v =
+      (pm, some (match guardHead Gen.C12IR.IntKeyMap_contains with
+                 | some r => if d.blind k then r else if (pm.tab.get hash k).isSome then Ret.boolT else Ret.boolF
+                 | none => if (pm.tab.get hash k).isSome then Ret.boolT else Ret.boolF)) := by
+  refine ⟨by decide, ?_⟩
+  unfold runP
+  rw [show Gen.C12IR.IntKeyMap_contains = canonLookup (guardHead Gen.C12IR.IntKeyMap_contains) .boolT .boolF from by decide, canonLookup_correct]; rfl
+
+/-- IntKeyMap.clear (IntIntMap returns at once when empty) -/
+theorem IntKeyMap_clear_interp (d : Desc K V) (hash : K → Nat) (thr : Nat → Nat) (pm : PMap K V) (k : K) (v : V) :
+    ∃ early, toP (run d hash thr .last k v Gen.C12IR.IntKeyMap_clear (ofP pm)).1 = (if early = true ∧ pm.count = 0 then pm else pm.clear) := by
+  first
+  | exact ⟨false, by rw [show Gen.C12IR.IntKeyMap_clear = canonClearP false from by decide]; exact canonClearP_correct d hash thr false pm k v⟩
+  | exact ⟨true, by rw [show Gen.C12IR.IntKeyMap_clear = canonClearP true from by decide]; exact canonClearP_correct d hash thr true pm k v⟩
+
+/-- IntSet.Contains (behind the empty-key guard where the source has one; the guard tests the *blind* predicate) -/
+theorem IntSet_contains_interp (d : Desc K V) (hash : K → Nat) (thr : Nat → Nat) (pm : PMap K V) (k : K) (v : V) :
+    (guardHead Gen.C12IR.IntSet_contains = none ∨ guardHead Gen.C12IR.IntSet_contains = some Ret.boolF) ∧
+    runP { d with refuse := d.blind } hash thr Gen.C12IR.IntSet_contains pm k v =
+      (pm, some (match guardHead Gen.C12IR.IntSet_contains with
+                 | some r => if d.blind k then r else if (pm.tab.get hash k).isSome then Ret.boolT else Ret.boolF
+                 | none => if (pm.tab.get hash k).isSome then Ret.boolT else Ret.boolF)) := by
+  refine ⟨by decide, ?_⟩
+  unfold runP
+  rw [show Gen.C12IR.IntSet_contains = canonLookup (guardHead Gen.C12IR.IntSet_contains) .boolT .boolF from by decide, canonLookup_correct]; rfl
+
+/-- IntSet.clear (IntIntMap returns at once when empty) -/
+theorem IntSet_clear_interp (d : Desc K V) (hash : K → Nat) (thr : Nat → Nat) (pm : PMap K V) (k : K) (v : V) :
+    ∃ early, toP (run d hash thr .last k v Gen.C12IR.IntSet_clear (ofP pm)).1 = (if early = true ∧ pm.count = 0 then pm else pm.clear) := by
+  first
+  | exact ⟨false, by rw [show Gen.C12IR.IntSet_clear = canonClearP false from by decide]; exact canonClearP_correct d hash thr false pm k v⟩
+  | exact ⟨true, by rw [show Gen.C12IR.IntSet_clear = canonClearP true from by decide]; exact canonClearP_correct d hash thr true pm k v⟩
+
+/-- StringSet.Contains (behind the empty-key guard where the source has one; the guard tests the *blind* predicate) -/
+theorem StringSet_contains_interp (d : Desc K V) (hash : K → Nat) (thr : Nat → Nat) (pm : PMap K V) (k : K) (v : V) :
+    (guardHead Gen.C12IR.StringSet_contains = none ∨ guardHead Gen.C12IR.StringSet_contains = some Ret.boolF) ∧
+    runP { d with refuse := d.blind } hash thr Gen.C12IR.StringSet_contains pm k v =
+      (pm, some (match guardHead Gen.C12IR.StringSet_contains with
+                 | some r => if d.blind k then r else if (pm.tab.get hash k).isSome then Ret.boolT else Ret.boolF
+                 | none => if (pm.tab.get hash k).isSome then Ret.boolT else Ret.boolF)) := by
+  refine ⟨by decide, ?_⟩
+  unfold runP
+  rw [show Gen.C12IR.StringSet_contains = canonLookup (guardHead Gen.C12IR.StringSet_contains) .boolT .boolF from by decide, canonLookup_correct]; rfl
+
+/-- StringSet.clear (IntIntMap returns at once when empty) -/
+theorem StringSet_clear_interp (d : Desc K V) (hash : K → Nat) (thr : Nat → Nat) (pm : PMap K V) (k : K) (v : V) :
+    ∃ early, toP (run d hash thr .last k v Gen.C12IR.StringSet_clear (ofP pm)).1 = (if early = true ∧ pm.count = 0 then pm else pm.clear) := by
+  first
+  | exact ⟨false, by rw [show Gen.C12IR.StringSet_clear = canonClearP false from by decide]; exact canonClearP_correct d hash thr false pm k v⟩
+  | exact ⟨true, by rw [show Gen.C12IR.StringSet_clear = canonClearP true from by decide]; exact canonClearP_correct d hash thr true pm k v⟩
+
+/-- IntIntMap.Sort -/
+theorem IntIntMap_sort_interp (pd : PDesc K V) (hash : K → Nat) (thr : Nat → Nat) (pm : PMap K V) (lt : K → K → Bool) :
+    interpSortP hash thr pd Gen.C12IR.IntIntMap_sort pm lt = pm.sort hash thr pd lt := by
+  rw [show Gen.C12IR.IntIntMap_sort = canonSort from by decide]; exact interpSortP_correct hash thr pd pm lt
+
+/-- IntIntMap.ToBytes / ToObject: the stream calls are the wire model's codec -/
+theorem IntIntMap_wire_interp (pm : PMap Int Int) :
+    interpToBytes Gen.C12IR.IntIntMap_toBytes pm.tab.entries = PMap.toBytes pm ∧
+    interpReader Gen.C12IR.IntIntMap_toObject = pairsFromBytes ∧ Gen.C12IR.IntIntMap_toObject.puts = true := by
+  refine ⟨?_, ?_, by decide⟩
+  · rw [show Gen.C12IR.IntIntMap_toBytes = canonWire false from by decide, interpToBytes_correct]; rfl
+  · rw [show Gen.C12IR.IntIntMap_toObject = canonWire false from by decide, interpReader_correct]; rfl
+
+end interpreted2
+
 end C12Gen
